@@ -65,7 +65,9 @@ Select(t, strict, ex) ==
 
 \* C16 (reload hand-over): the new generation inherits the last known state of every node, and a type for which no node is
 \* alive gets exactly one selectable node (ControlPlane.InheritDialerHealthFrom: CaptureReloadSelectionFallback on the new
-\* group, RestoreHealthSnapshot per node, EnsureReloadSelectionFloor); the history ends with the reload
+\* group, RestoreHealthSnapshot per node, EnsureReloadSelectionFloor); the history ends with the reload.
+\* The replay runs the hand-over with a second group made of two of the first group's nodes (shared node objects): no node that was
+\* alive is lost, at most one node is revived per group that had no alive member, and EVERY group can select for every type
 EmptyTypes == {t \in Types : \A n \in Nodes : ~alive[n][t]}
 Reload == /\ WithReload /\ ~ended
           /\ IF policy \in {"fixed1", "fixed2"}
